@@ -83,9 +83,30 @@ def _worker(args):
 
 
 def run_pool(jobs, nproc):
+    """One fresh (spawned) process per job.  A worker that dies (e.g. killed by the
+    OOM killer) or never returns surfaces as a harness error instead of a hang."""
+    import concurrent.futures as cf
+
     ctx = mp.get_context("spawn")
-    with ctx.Pool(processes=nproc, maxtasksperchild=1) as pool:
-        return pool.map(_worker, jobs, chunksize=1)
+    hard = float(os.environ.get("VERIF_HARD_TIMEOUT_S", "7200"))
+    out = [None] * len(jobs)
+    with cf.ProcessPoolExecutor(max_workers=nproc, mp_context=ctx, max_tasks_per_child=1) as ex:
+        futs = {ex.submit(_worker, j): i for i, j in enumerate(jobs)}
+        try:
+            for fut in cf.as_completed(futs, timeout=hard):
+                i = futs[fut]
+                try:
+                    out[i] = fut.result()
+                except BaseException as e:  # noqa: BLE001 - BrokenProcessPool etc.
+                    out[i] = {"ok": False, "err": "worker for shard %d died: %s: %s" % (i, type(e).__name__, e)}
+        except cf.TimeoutError:
+            for fut, i in futs.items():
+                if out[i] is None:
+                    fut.cancel()
+                    out[i] = {"ok": False, "err": "worker for shard %d did not finish within %.0f s" % (i, hard)}
+            for p in list(getattr(ex, "_processes", {}).values()):
+                p.kill()
+    return out
 
 
 def write_replay(pid, failure):
